@@ -37,4 +37,9 @@ Definition lossy (f : string) : bool :=
      "ExtractSecond"; "ExtractDow"; "ExtractWeek"; "Date"; "IsNull"; "IsBool"; "Not2"].
 
 (* injective over the reals but not on floats (rounding, underflow): known finding *)
+(* the functions SQL evaluates anew for each row: a column computed by one of them alone holds distinct values (up to
+   collisions of the generator); the clock functions CURRENT_DATE / CURRENT_TIME / CURRENT_TIMESTAMP and the constant PI
+   are evaluated once per statement and repeat their value on every row *)
+Definition fresh_per_row (f : string) : bool := existsb (String.eqb f) ["Random"; "Newid"].
+
 Definition rounding (f : string) : bool := existsb (String.eqb f) ["Exp"; "Ln"; "Log"; "Sqrt"].
